@@ -366,7 +366,7 @@ def run(ctx):
     warnings.simplefilter("ignore")
     rig = Rig(ctx)
     rng = ctx.rng
-    ntrees = ctx.pick({"quick": 300, "thorough": 2500})
+    ntrees = ctx.pick({"quick": 300, "thorough": 2000})
     depth = ctx.pick({"quick": 3, "thorough": 5})
     gen = G.Gen(rng, max_depth=depth, features={"between_bool"})
     from sqlalchemy.sql import elements as E
